@@ -3,6 +3,7 @@ package c01
 import (
 	"context"
 	"fmt"
+	"os"
 	"runtime/debug"
 	"strings"
 	"testing"
@@ -30,7 +31,12 @@ import (
 	"verif/internal/hx"
 )
 
-func TestMain(m *testing.M) { hx.MainContained(m, "C01") }
+func TestMain(m *testing.M) {
+	if nativeFuzz() {
+		os.Exit(m.Run()) // fuzz coordinator and workers: no containment wrapper, no evidence
+	}
+	hx.MainContained(m, "C01")
+}
 
 var dialects = []keywords.SQLDialect{"", keywords.DialectGeneric, keywords.DialectMySQL, keywords.DialectPostgreSQL, keywords.DialectSQLite,
 	keywords.DialectSQLServer, keywords.DialectOracle, keywords.DialectSnowflake, keywords.DialectBigQuery, keywords.DialectRedshift, keywords.DialectUnknown, "no-such-dialect"}
